@@ -169,7 +169,10 @@ pub fn generate(target: Target, r: &mut Rng, tier: Tier, st: &mut Stats) -> Trac
     // cursor addressing on gigantic screens (parameters beyond 9999 / beyond 16 bits) - only for the
     // cursor target: its sessions are short and need no long text
     let (cols, rows) = if target == Target::Cursor { maybe_gigantic(r, (cols, rows)) } else { (cols, rows) };
-    let cfg = Config { cols, rows, limit: None };
+    // C06 also runs with small scrollback limits: what the terminal no longer retains must have been
+    // handed out through Changes.scrollback of the call that trimmed it
+    let limit = if target == Target::Scroll && r.chance(1, 4) { *r.pick(&[Some(0usize), Some(1), Some(3), Some(10)]) } else { None };
+    let cfg = Config { cols, rows, limit };
     let mut p = Profile::base();
     match target {
         Target::Print => {
@@ -220,15 +223,16 @@ pub fn generate(target: Target, r: &mut Rng, tier: Tier, st: &mut Stats) -> Trac
 }
 
 pub fn execute(target: Target, t: &Trace, st: &mut Stats, ctx: &Ctx) -> Verdict {
-    if t.config.limit.is_some() {
+    if t.config.limit.is_some() && target != Target::Scroll {
         return Verdict::Skip;
     }
+    let limit = t.config.limit;
     let id = target.id();
     let res = catch_avt(|| -> Verdict {
-        let mut vt = build(t.config.cols, t.config.rows, None);
+        let mut vt = build(t.config.cols, t.config.rows, limit);
         // the same events delivered with their original call structure (multi-character feed_str
         // calls, feed() loops): what holds per character must hold for any grouping into calls
-        let mut vt2 = build(t.config.cols, t.config.rows, None);
+        let mut vt2 = build(t.config.cols, t.config.rows, limit);
         let mut parser = Parser::new();
         let mut m = Model::new(t.config.cols, t.config.rows, true);
         let mut refp = crate::model::parser::RefParser::new();
@@ -271,11 +275,29 @@ pub fn execute(target: Target, t: &Trace, st: &mut Stats, ctx: &Ctx) -> Verdict 
                 let f = parser.feed(ch);
                 let rf = refp.feed(ch);
                 // one character per call: feed() where the schedule says feed loop, else feed_str
+                // rows the call handed out (only under a limit): together with what is retained they
+                // are the scrollback the model predicts
+                let mut drained: Vec<crate::obs::MRow> = vec![];
                 if by_feed {
                     vt.feed(ch);
                 } else {
-                    vt.feed_str(ch.encode_utf8(&mut buf));
+                    let chg = vt.feed_str(ch.encode_utf8(&mut buf));
+                    if limit.is_some() {
+                        drained = chg.scrollback.map(|l| crate::obs::conv_line(&l)).collect();
+                        if !drained.is_empty() {
+                            st.bump("steps_with_rows_handed_out");
+                        }
+                    }
                 }
+                let with_drained = |o: &Obs| -> Obs {
+                    let mut c = o.clone();
+                    if !drained.is_empty() {
+                        let mut a = drained.clone();
+                        a.extend(c.above.into_iter());
+                        c.above = a;
+                    }
+                    c
+                };
                 if target == Target::Print {
                     // "each printable character is written": a character the state machine of the
                     // statement prints (ground state, 0x20-0x7F or >= U+00A0) must reach the terminal
@@ -288,7 +310,14 @@ pub fn execute(target: Target, t: &Trace, st: &mut Stats, ctx: &Ctx) -> Verdict 
                         }
                     }
                 }
-                let Some(f) = f else { continue };
+                let Some(f) = f else {
+                    if !drained.is_empty() {
+                        // a call without a function can still run a trim that feed() calls left pending
+                        let o = observe(&vt);
+                        m.adopt(&o);
+                    }
+                    continue;
+                };
                 let cls = classify(&f, &m);
                 if cls != Some(target) {
                     // not this property's operation: hidden state only, observable state adopted
@@ -304,9 +333,10 @@ pub fn execute(target: Target, t: &Trace, st: &mut Stats, ctx: &Ctx) -> Verdict 
                         m.adopt(&o);
                         continue;
                     }
+                    let o_full_len = o.above.len() + drained.len();
                     if let Some(pv) = pre_grid {
                         st.bump("off_margin_moves_checked_for_scrolling");
-                        let moved = o.view.len() != pv.len() || o.view.iter().zip(pv.iter()).any(|(a, b)| a.cells != b.cells) || o.above.len() != pre_above_len;
+                        let moved = o.view.len() != pv.len() || o.view.iter().zip(pv.iter()).any(|(a, b)| a.cells != b.cells) || o_full_len != pre_above_len;
                         if moved {
                             return Verdict::Violation {
                                 rule: format!("{}/{}-scrolled-off-margin", id, fname(&f)),
@@ -321,10 +351,10 @@ pub fn execute(target: Target, t: &Trace, st: &mut Stats, ctx: &Ctx) -> Verdict 
                         let exempt = matches!(f, Function::Decset(_) | Function::Decrst(_) | Function::Ris | Function::Ed(avt::parser::EdScope::SavedLines));
                         if !exempt {
                             st.bump("non_scrolling_functions_checked_for_scrollback");
-                            if o.above.len() != pre_above_len {
+                            if o_full_len != pre_above_len {
                                 return Verdict::Violation {
                                     rule: format!("{}/non-scrolling-function-changed-scrollback", id),
-                                    detail: format!("event #{} function {:?}: scrollback went from {} to {} lines", ei, f, pre_above_len, o.above.len()),
+                                    detail: format!("event #{} function {:?}: scrollback went from {} to {} lines", ei, f, pre_above_len, o_full_len),
                                 };
                             }
                         }
@@ -346,6 +376,8 @@ pub fn execute(target: Target, t: &Trace, st: &mut Stats, ctx: &Ctx) -> Verdict 
                     continue;
                 }
                 let mut exp = m.obs();
+                let o_ret = o;
+                let o = with_drained(&o_ret);
                 apply_tolerances(&m, &before, &mut exp, &o);
                 // (the alternate screen keeps no scrollback: with one feed_str per character the
                 // model's empty scrollback is exact there too)
@@ -447,7 +479,7 @@ pub fn execute(target: Target, t: &Trace, st: &mut Stats, ctx: &Ctx) -> Verdict 
                     // known findings (by state predicate)
                     if target == Target::Cursor && matches!(f, Function::Ri) && before.origin && ctx.open_matchers.contains("c05_ri_under_origin_mode") {
                         known = Some("c05_ri_under_origin_mode".into());
-                        m.adopt(&o);
+                        m.adopt(&o_ret);
                         continue;
                     }
                     return Verdict::Violation {
@@ -458,7 +490,7 @@ pub fn execute(target: Target, t: &Trace, st: &mut Stats, ctx: &Ctx) -> Verdict 
                         ),
                     };
                 }
-                m.adopt(&o);
+                m.adopt(&o_ret);
             }
             // the event with its original call structure on the twin
             match e {
@@ -472,10 +504,15 @@ pub fn execute(target: Target, t: &Trace, st: &mut Stats, ctx: &Ctx) -> Verdict 
                 }
                 _ => {}
             }
+            // (under a limit the two deliveries may legitimately retain different amounts of
+            // scrollback - C12 exempts lines() there - and a later resize can expose that)
+            if limit.is_some() {
+                continue;
+            }
             if let Some(d) = crate::obs::same_screen(&vt, &vt2) {
                 return Verdict::Violation { rule: format!("{}/call-structure", id), detail: format!("event #{}: the event delivered as one call and character by character give different screens: {}", ei, d) };
             }
-            if !by_feed && vt.lines() != vt2.lines() {
+            if !by_feed && limit.is_none() && vt.lines() != vt2.lines() {
                 return Verdict::Violation { rule: format!("{}/call-structure", id), detail: format!("event #{}: lines() differ between one call ({} lines) and character-by-character delivery ({} lines)", ei, vt2.lines().len(), vt.lines().len()) };
             }
             st.bump("call_structure_twin_compared");
